@@ -10,8 +10,10 @@
 // too_many_pool_threads, unregister_returned_early, handler_after_unregister, handler_after_pool_destruction;
 // a hang is proved by the driver (all harness waiting is untimed) -> key <leg>|deadlock.
 // modes (--opt mode=): stress (default) | regress (fixed deterministic witnesses + documentation examples of ThreadPool.h)
+//                      | lockorder (witness of the _poolLock / global-muscle-lock inversion, see LockOrder())
 #include "system/ThreadPool.h"
 #include "system/SetupSystem.h"
+#include "util/ObjectPool.h"
 #include "message/Message.h"
 #include <vector>
 #include <string>
@@ -54,8 +56,15 @@ static std::atomic<int> g_nPoolThreads(0);
 static __thread int t_slot = -1;
 static std::atomic<uint32_t> g_caseSalt(1);
 
+struct CaseCtx;
+static void NoteWaiterParked();               // an unregistering thread passed MVH_POOL_UNREGISTER_BEFORE_WAIT
+static std::atomic<int> g_countParked(0);     // 1 = count before the injected delay of that site, 2 = after it
+static void (*g_onShutdownHook)() = NULL;     // called by the thread inside ThreadPool::Shutdown(), after _shuttingDown was set, before the pool threads are joined
+
 static void MyHook(int site, const void * obj, long arg)
 {
+   if (site == MVH_POOL_UNREGISTER_BEFORE_WAIT && g_countParked.load() == 1) NoteWaiterParked();
+   if (site == MVH_POOL_BEFORE_SHUTDOWN && g_onShutdownHook) { void (*f)() = g_onShutdownHook; g_onShutdownHook = NULL; hookrt::hook(site, obj, arg); f(); return; }
    if (site == MVH_THREAD_INTERNAL_ENTRY) {
       const int n = g_nPoolThreads.fetch_add(1);
       t_slot = (n < MAXT) ? n : -2;
@@ -63,6 +72,7 @@ static void MyHook(int site, const void * obj, long arg)
       hookrt::t_rng = (g_caseSalt.load() * 2654435761u + (uint32_t)n * 40503u) | 1u;
    }
    hookrt::hook(site, obj, arg);
+   if (site == MVH_POOL_UNREGISTER_BEFORE_WAIT && g_countParked.load() == 2) NoteWaiterParked();
 }
 
 static void SpinMicros(int us) { struct timespec a, b; clock_gettime(CLOCK_MONOTONIC, &a); for (;;) { clock_gettime(CLOCK_MONOTONIC, &b); long d = (long)(b.tv_sec - a.tv_sec) * 1000000L + (b.tv_nsec - a.tv_nsec) / 1000L; if (d >= us) break; } }
@@ -79,9 +89,13 @@ struct CaseCtx {
    std::atomic<int> bad; std::atomic<int> active; std::atomic<int> maxActive;
    std::atomic<long> accepted, rejectedUnreg, rejectedOpen, skippedClosing, subWhileInHandler, acceptedDuringUnregWait, handlerSubmits, dawdles;
    std::mutex pmu; std::condition_variable pcv; long progress; int subsRunning;     // progress of the submitters (untimed waits of the registrars)
-   CaseCtx() : k(0), seed(0), psz(1), pool(NULL), bad(0), active(0), maxActive(0), accepted(0), rejectedUnreg(0), rejectedOpen(0), skippedClosing(0), subWhileInHandler(0), acceptedDuringUnregWait(0), handlerSubmits(0), dawdles(0), progress(0), subsRunning(0) {}
+   int parkedWaiters;                                                               // under pmu: unregistering threads that decided to wait (shutdown phase)
+   std::atomic<int> gateOn; std::mutex gmu; std::condition_variable gcv; bool gateClosed; int handlersParked;   // shutdown phase: handlers park at their entry until the gate opens
+   CaseCtx() : k(0), seed(0), psz(1), pool(NULL), bad(0), active(0), maxActive(0), accepted(0), rejectedUnreg(0), rejectedOpen(0), skippedClosing(0), subWhileInHandler(0), acceptedDuringUnregWait(0), handlerSubmits(0), dawdles(0), progress(0), subsRunning(0), parkedWaiters(0), gateOn(0), gateClosed(false), handlersParked(0) {}
 };
 static CaseCtx * g_case = NULL;
+static void NoteWaiterParked() { CaseCtx * C = g_case; if (!C) return; std::lock_guard<std::mutex> g(C->pmu); C->parkedWaiters++; C->pcv.notify_all(); }
+static void OpenGate() { CaseCtx * C = g_case; if (!C) return; std::lock_guard<std::mutex> g(C->gmu); C->gateClosed = false; C->gcv.notify_all(); }
 
 static void Fail(const std::string & key, const std::string & detail)
 {
@@ -97,8 +111,8 @@ struct Cl : public IThreadPoolClient {
    std::atomic<uint32_t> handled; std::atomic<int> inHandler; std::atomic<int> unregDone;
    std::atomic<uint32_t> pokeAt; std::atomic<int> pokeEarly; bool poked;   // the handler of ticket pokeAt wakes the registrar (poked: under CaseCtx::pmu)
    std::vector<UnregRec> unregs;                                     // touched by the one thread that (un)registers this client
-   bool everUnregistered;
-   Cl(ThreadPool * tp, int i) : IThreadPoolClient(tp), id(i), state(tp ? ST_OPEN : ST_UNREG), nextTicket(0), handled(0), inHandler(0), unregDone(0), pokeAt(~(uint32_t)0), pokeEarly(0), poked(false), everUnregistered(false) {}
+   bool everUnregistered; bool releasedByShutdown;   // releasedByShutdown: unregistration overlapped a pool shutdown, queued Messages may have been dropped
+   Cl(ThreadPool * tp, int i) : IThreadPoolClient(tp), id(i), state(tp ? ST_OPEN : ST_UNREG), nextTicket(0), handled(0), inHandler(0), unregDone(0), pokeAt(~(uint32_t)0), pokeEarly(0), poked(false), everUnregistered(false), releasedByShutdown(false) {}
 
    virtual void MessageReceivedFromThreadPool(const MessageRef & msg, uint32 /*numLeft*/)
    {
@@ -117,6 +131,7 @@ struct Cl : public IThreadPoolClient {
       int mx = C.maxActive.load(); while (act > mx && !C.maxActive.compare_exchange_weak(mx, act)) {}
       if (act > (int)C.psz) Fail("too_many_concurrent_handlers", vh::fmt("%d handlers running at once in a pool of %u threads", act, C.psz));
       if (unregDone.load()) Fail("handler_after_unregister", vh::fmt("client %d: handler for ticket %d runs after SetThreadPool(NULL) returned", id, mt));
+      if (C.gateOn.load()) { std::unique_lock<std::mutex> g(C.gmu); if (C.gateClosed) { C.handlersParked++; while (C.gateClosed) C.gcv.wait(g); } }
       const bool poke = (pokeAt.load() == (uint32_t)mt);
       if (poke && pokeEarly.load()) Poke(C);
       switch (a) {
@@ -186,7 +201,7 @@ static void SubmitterThread(CaseCtx * Cp, int idx, int nmsgs, uint64_t seed)
 }
 
 // Unregisters a client and checks what must hold at the return of the unregistration.
-static void DoUnregister(CaseCtx & C, Cl * c, const char * who)
+static void DoUnregister(CaseCtx & C, Cl * c, const char * who, bool duringShutdown = false)
 {
    uint32_t accBefore;
    { std::lock_guard<std::mutex> g(c->mu); if (c->state != ST_OPEN) return; c->state = ST_CLOSING; accBefore = c->nextTicket; }
@@ -197,6 +212,11 @@ static void DoUnregister(CaseCtx & C, Cl * c, const char * who)
    const int stillIn = c->inHandler.load();
    { std::lock_guard<std::mutex> g(c->mu); u.acceptedAtReturn = c->nextTicket; c->state = ST_UNREG; }
    c->unregs.push_back(u); c->everUnregistered = true;
+   if (duringShutdown) {   // the pool was shut down while this call was blocked: queued Messages may be dropped, but no handler may be running now or later
+      c->releasedByShutdown = true; vh::stat("unregistrations_overlapping_shutdown");
+      if (stillIn || u.handledAtReturn > u.acceptedAtReturn) Fail("unregister_returned_early", vh::fmt("client %d: SetThreadPool(NULL) (overlapping the pool shutdown) returned with handled=%u of accepted=%u%s", c->id, u.handledAtReturn, u.acceptedAtReturn, stillIn ? ", a handler of the client is still running" : ""));
+      return;
+   }
    if (u.handledAtReturn != u.acceptedAtReturn || stillIn)
       Fail("unregister_returned_early", vh::fmt("client %d: SetThreadPool(NULL) returned with handled=%u of accepted=%u (accepted when it was called: %u)%s", c->id, u.handledAtReturn, u.acceptedAtReturn, accBefore, stillIn ? ", a handler of the client is still running" : ""));
    vh::stat("unregistrations");
@@ -243,6 +263,64 @@ static std::string ClientTrace(const std::vector<Ev> & all, int client, size_t u
    return s;
 }
 
+static void BlockedUnregistrar(CaseCtx * Cp, Cl * c, uint64_t seed)
+{
+   hookrt::set_role(R_UNREG); hookrt::t_rng = (uint32_t)(seed >> 5) | 1u;
+   DoUnregister(*Cp, c, "blocked-unregistrar", true);
+}
+
+// End mode 4.  All handlers entered from now on park at a gate, fresh Messages are submitted, so every chosen client has work that
+// cannot complete (being handled / deferred behind its parked handler / pending because every pool thread is parked).  One thread
+// per chosen client calls SetThreadPool(NULL) and must decide to wait; when all of them passed MVH_POOL_UNREGISTER_BEFORE_WAIT the
+// main thread shuts the pool down through AbstractObjectRecycler::GlobalFlushAllCachedObjects() (ThreadPool::Shutdown() is private;
+// this is the path ~CompleteSetupSystem takes).  The gate opens either inside Shutdown() (after _shuttingDown was set: only Shutdown
+// itself can wake the waiters) or just before the call (handlers finish while the shutdown starts).  Every unregistration must return.
+static void ShutdownUnderBlockedUnregistrations(CaseCtx & C, vh::Rng & r)
+{
+   const uint32_t nc = (uint32_t)C.cls.size();
+   { std::lock_guard<std::mutex> g(C.gmu); C.gateClosed = true; } C.gateOn.store(1);
+   hookrt::set_role(R_SUB);
+   std::vector<Cl *> cand;
+   for (int pass = 0; pass < 2 && cand.empty(); pass++)
+      for (uint32_t i = 0; i < nc; i++) {
+         Cl * c = C.cls[i]; int st; { std::lock_guard<std::mutex> g(c->mu); st = c->state; }
+         if (pass == 1 && st == ST_UNREG && cand.empty()) { DoRegister(C, c); st = ST_OPEN; }
+         if (st != ST_OPEN || (pass == 0 && !r.chance(3, 4))) continue;
+         int acc = 0; const uint32_t n = r.range(1, 3);
+         for (uint32_t j = 0; j < n; j++) { const uint32_t p = r.R(10); if (Submit(c, false, p < 6 ? A_NONE : (p < 8 ? A_SELF : (p < 9 ? A_OTHER : A_SLEEP)), (int)r.R(32768), (int)r.range(1, 2)) > 0) acc++; }
+         if (acc) cand.push_back(c);
+      }
+   hookrt::set_role(R_MAIN);
+   if (cand.empty()) { vh::stat("shutdown_phase_without_candidates"); OpenGate(); return; }
+   for (size_t i = cand.size(); i > 1; i--) std::swap(cand[i - 1], cand[r.R((uint32_t)i)]);
+   const size_t B = std::min(cand.size(), (size_t)r.range(1, 5));
+   const bool openInside = r.chance(2, 3);
+   g_countParked.store(r.chance(1, 2) ? 1 : 2);
+   std::vector<std::thread> ths;
+   for (size_t i = 0; i < B; i++) ths.emplace_back(BlockedUnregistrar, &C, cand[i], vh::mix64(C.seed ^ (0x9393ULL + i)));
+   {
+      vh::note(C.desc + vh::fmt(" | shutdown phase: waiting until %zu threads are blocked in SetThreadPool(NULL) (their clients have Messages that cannot complete)", B));
+      std::unique_lock<std::mutex> g(C.pmu);
+      while (C.parkedWaiters < (int)B) C.pcv.wait(g);
+   }
+   g_countParked.store(0);
+   int parkedHandlers; { std::lock_guard<std::mutex> g(C.gmu); parkedHandlers = C.handlersParked; }
+   for (size_t i = 0; i < B; i++) {
+      Cl * c = cand[i]; const int inH = c->inHandler.load(); uint32_t backlog; { std::lock_guard<std::mutex> g(c->mu); backlog = c->nextTicket - c->handled.load(); }
+      if (inH) { vh::stat("shutdown_waiter_client_being_handled"); if (backlog > 1) vh::stat("shutdown_waiter_client_with_deferred_messages"); }
+      else vh::stat("shutdown_waiter_client_pending_only");
+   }
+   vh::stat("shutdown_while_unregister_blocked"); vh::stat("waiters_parked_at_shutdown", (long)B); vh::stat("handlers_parked_at_shutdown", parkedHandlers);
+   vh::stat(openInside ? "shutdown_gate_opened_inside_shutdown" : "shutdown_gate_opened_just_before");
+   if (openInside) g_onShutdownHook = OpenGate; else { OpenGate(); if (r.chance(1, 2)) sched_yield(); }
+   vh::note(C.desc + vh::fmt(" | GlobalFlushAllCachedObjects() -> ThreadPool::Shutdown() with %zu threads blocked in SetThreadPool(NULL), %d handlers parked", B, parkedHandlers));
+   AbstractObjectRecycler::GlobalFlushAllCachedObjects();
+   g_onShutdownHook = NULL; OpenGate();
+   vh::note(C.desc + vh::fmt(" | pool is shut down; joining %zu threads that were blocked in SetThreadPool(NULL): they must have been woken", B));
+   for (size_t i = 0; i < ths.size(); i++) ths[i].join();
+   C.gateOn.store(0);
+}
+
 static bool EvLess(const Ev & a, const Ev & b) { return a.seq < b.seq; }
 static std::set<uint64_t> g_sigs;
 
@@ -259,7 +337,8 @@ static void RunCase(long k, uint64_t cs)
    const uint32_t nsub = r.range(1, 4);
    const uint32_t total = r.chance(1, 8) ? r.range(4, 40) : (r.chance(1, 6) ? r.range(400, 900) : r.range(40, 400));
    const uint32_t nreg = r.R(3);                    // 0..2 registrar threads
-   const int endMode = r.R(4);                      // 0,1: unregister everything then destroy; 2: destroy with outstanding work; 3: unregister some, then destroy
+   const int endMode = r.R(5);                      // 0,1: unregister everything then destroy; 2: destroy with outstanding work; 3: unregister some, then destroy;
+                                                    // 4: pool shut down (global flush) underneath threads that are blocked in SetThreadPool(NULL), then destroyed
    // ---- delay placement (delay bounding): round-robin over the case index
    hookrt::disarm_all(); hookrt::reset_ring();
    long hits0[NSITES], del0[NSITES]; for (int i = 0; i < NSITES; i++) { hits0[i] = hookrt::hits(SITES[i]); del0[i] = hookrt::delays(SITES[i]); }
@@ -276,10 +355,17 @@ static void RunCase(long k, uint64_t cs)
       pdesc += vh::fmt("%s%s/%s/%s%d/1in%d", a ? "+" : "", hookrt::site_name(p.site), RoleName(p.role), KindName(kind), us, oneIn);
       if (want == 1) vh::stat(vh::fmt("placement_%s:%s", hookrt::site_name(p.site), RoleName(p.role)));
    }
+   if (endMode == 4 && want >= 1 && want < 3 && r.chance(1, 2)) {
+      static const int xs[4] = {MVH_POOL_UNREGISTER_BEFORE_WAIT, MVH_POOL_UNREGISTER_AFTER_WAIT, MVH_POOL_BEFORE_SHUTDOWN, MVH_POOL_BEFORE_HANDBACK}; static const int xr[4] = {R_UNREG, R_UNREG, R_MAIN, R_POOL};
+      const int w = (int)r.R(4), kind = (int)r.R(3), us = kind == hookrt::K_SLEEP ? (int)r.range(50, 1500) : (kind == hookrt::K_SPIN ? (int)r.range(5, 150) : 0);
+      hookrt::arm(want, xs[w], xr[w], kind, us, 1); armedSites[want] = xs[w]; nArmed++;
+      pdesc += vh::fmt("+%s/%s/%s%d/1in1", hookrt::site_name(xs[w]), RoleName(xr[w]), KindName(kind), us);
+      vh::stat("shutdown_cases_with_extra_placement");
+   }
    if (jit) { const int o = (int)r.range(3, 12), us = (int)r.range(50, 400); hookrt::jitter(o, us); pdesc = vh::fmt("jitter/1in%d/%dus", o, us); }
    if (!jit && want == 0) pdesc = "no-delay";
    vh::stat(jit ? "cases_jitter_only" : (want == 0 ? "cases_no_delay" : (want == 1 ? "cases_single_placement" : (want == 2 ? "cases_pair_placement" : "cases_triple_placement"))));
-   static const char * endNames[4] = {"unregister-all-then-destroy", "unregister-all-then-destroy", "destroy-with-outstanding-work", "unregister-some-then-destroy"};
+   static const char * endNames[5] = {"unregister-all-then-destroy", "unregister-all-then-destroy", "destroy-with-outstanding-work", "unregister-some-then-destroy", "shutdown-under-blocked-unregistrations"};
    C.desc = vh::fmt("case %ld: pool=%u clients=%u submitters=%u msgs=%u registrars=%u end=%s delay=%s", k, C.psz, nc, nsub, total, nreg, endNames[endMode], pdesc.c_str());
    hookrt::set_role(R_MAIN); hookrt::t_rng = (uint32_t)(cs >> 3) | 1u;
 
@@ -309,7 +395,8 @@ static void RunCase(long k, uint64_t cs)
    for (size_t i = 0; i < regs.size(); i++) regs[i].join();
 
    // ---- end game
-   if (endMode != 2) {
+   if (endMode == 4) ShutdownUnderBlockedUnregistrations(C, r);
+   else if (endMode != 2) {
       hookrt::set_role(R_UNREG);
       for (uint32_t i = 0; i < nc; i++) { if (endMode == 3 && r.chance(1, 2)) continue; DoUnregister(C, C.cls[i], "main"); }
       hookrt::set_role(R_MAIN);
@@ -348,7 +435,7 @@ static void RunCase(long k, uint64_t cs)
    for (uint32_t i = 0; i < nc && !C.bad.load(); i++) {
       Cl * c = C.cls[i];
       if (nEnter[i] != c->handled.load()) { Fail("not_handled", vh::fmt("client %u: log holds %u handler entries, handler counter says %u", i, nEnter[i], c->handled.load())); break; }
-      if (c->state == ST_UNREG) { if (nEnter[i] != c->nextTicket) { Fail("not_handled", vh::fmt("client %u was unregistered, %u submissions accepted, %u handled | %s", i, c->nextTicket, nEnter[i], ClientTrace(all, (int)i, all.size()).c_str())); break; } }
+      if (c->state == ST_UNREG && !c->releasedByShutdown) { if (nEnter[i] != c->nextTicket) { Fail("not_handled", vh::fmt("client %u was unregistered, %u submissions accepted, %u handled | %s", i, c->nextTicket, nEnter[i], ClientTrace(all, (int)i, all.size()).c_str())); break; } }
       else dropped += (long)c->nextTicket - (long)nEnter[i];       // still registered when the pool was destroyed: a prefix was handled (order rule), the rest is dropped
    }
 
@@ -395,6 +482,9 @@ struct DocClient : public IThreadPoolClient {
    }
    status_t Send(int32 t) { MessageRef m = GetMessageFromPool(1); (void)m()->AddInt32("t", t); return SendMessageToThreadPool(m); }
 };
+static DocClient * g_docGates[4] = {NULL, NULL, NULL, NULL};
+static void OpenDocGates() { for (int i = 0; i < 4; i++) if (g_docGates[i]) { std::lock_guard<std::mutex> g(g_docGates[i]->mu); g_docGates[i]->gate = 0; g_docGates[i]->cv.notify_all(); } }
+static void DocUnregister(DocClient * c, int * handledAtReturn) { hookrt::set_role(R_UNREG); c->SetThreadPool(NULL); std::lock_guard<std::mutex> g(c->mu); *handledAtReturn = (int)c->got.size(); }
 static void RFail(const char * what, const std::string & d) { vh::viol(std::string("regress|") + what, d); }
 
 static void Regress()
@@ -474,7 +564,77 @@ static void Regress()
       if (tids.size() > 2) RFail("many-clients", vh::fmt("%zu distinct pool threads in a pool of 2", tids.size()));
       for (int i = 0; i < 8; i++) delete v[i];
    }
-   vh::distinct(1); vh::distinct(2); vh::distinct(3); vh::distinct(4); vh::distinct(5);
+   for (int psz = 1; psz <= 3; psz += 2) {
+      vh::begin_case(psz == 1 ? 5 : 6);
+      // the pool is shut down (global flush, as ~CompleteSetupSystem does) underneath threads blocked in SetThreadPool(NULL): client a is being
+      // handled (handler parked) with a second Message deferred, client b's Message is pending (1-thread pool) or being handled (3-thread pool).
+      // The handlers are released inside Shutdown() after _shuttingDown was set, so only Shutdown() itself can wake the waiters.  Both calls must return.
+      ThreadPool * pool = new ThreadPool((uint32)psz); DocClient a(pool), b(pool);
+      { std::lock_guard<std::mutex> g(a.mu); a.gate = 1; } { std::lock_guard<std::mutex> g(b.mu); b.gate = 1; }
+      (void)a.Send(0);
+      { std::unique_lock<std::mutex> g(a.mu); vh::note("regress 5/6: waiting for a's handler to start"); while (a.entered == 0) a.cv.wait(g); }
+      (void)a.Send(1); (void)b.Send(0);
+      if (psz > 1) { std::unique_lock<std::mutex> g(b.mu); vh::note("regress 6: waiting for b's handler to start"); while (b.entered == 0) b.cv.wait(g); }
+      dummy.parkedWaiters = 0; g_countParked.store(2); g_docGates[0] = &a; g_docGates[1] = &b; g_onShutdownHook = OpenDocGates;
+      int ha = -1, hb = -1;
+      std::thread ua(DocUnregister, &a, &ha), ub(DocUnregister, &b, &hb);
+      { std::unique_lock<std::mutex> g(dummy.pmu); vh::note("regress 5/6: waiting until both unregistering threads decided to wait"); while (dummy.parkedWaiters < 2) dummy.pcv.wait(g); }
+      g_countParked.store(0);
+      vh::note("regress 5/6: GlobalFlushAllCachedObjects() with two threads blocked in SetThreadPool(NULL)");
+      AbstractObjectRecycler::GlobalFlushAllCachedObjects();
+      g_onShutdownHook = NULL; OpenDocGates();
+      vh::note("regress 5/6: pool is shut down; joining the two threads that were blocked in SetThreadPool(NULL): Shutdown() must have woken them");
+      ua.join(); ub.join();
+      g_docGates[0] = g_docGates[1] = NULL;
+      if (a.GetThreadPool() != NULL || b.GetThreadPool() != NULL) RFail("shutdown-under-unregister", "client still attached after SetThreadPool(NULL) returned");
+      if (ha != (int)a.got.size() || hb != (int)b.got.size() || a.entered != (int)a.got.size()) RFail("shutdown-under-unregister", "a handler ran after SetThreadPool(NULL) returned");
+      bool ok = a.got.size() >= 1 && a.got.size() <= 2 && b.got.size() <= 1; for (size_t i = 0; ok && i < a.got.size(); i++) if (a.got[i] != (int32)i) ok = false;
+      if (!ok) RFail("shutdown-under-unregister", vh::fmt("a handled %zu (want a prefix of 0,1), b handled %zu (want at most 1)", a.got.size(), b.got.size()));
+      if (psz > 1 && b.got.size() != 1) RFail("shutdown-under-unregister", "b's running handler did not complete");
+      delete pool;
+      vh::stat("regress_shutdown_under_blocked_unregistration");
+   }
+   vh::distinct(1); vh::distinct(2); vh::distinct(3); vh::distinct(4); vh::distinct(5); vh::distinct(6); vh::distinct(7);
+   g_case = NULL;
+}
+
+// ---- mode=lockorder: witness of a lock-order inversion found by this harness (TSan: "lock-order-inversion" between ThreadPool::_poolLock and
+// the global muscle lock).  (a) SendMessageToThreadPool -> DispatchPendingMessagesUnsafe (holds _poolLock) -> StartInternalThread -> ... ->
+// GetConstSocketRefFromPool(): the FIRST call in a process constructs a function-static ObjectPool, whose AbstractObjectRecycler constructor takes
+// the global muscle lock;  (b) AbstractObjectRecycler::GlobalFlushAllCachedObjects() holds the global muscle lock and calls
+// ThreadPool::FlushCachedObjects() -> Shutdown() -> _poolLock.  The witness makes the two meet with untimed waits only (a ThreadPool subclass
+// pauses inside its StartInternalThread() override, i.e. under _poolLock; a harness recycler that is flushed first tells when the flushing thread
+// holds the global lock): on the affected tree both threads block for ever and the driver proves the deadlock (key lockorder|deadlock).
+// Must run in a fresh process without the warm-up below (the static pool is constructed only once).
+static std::mutex g_loMu; static std::condition_variable g_loCv; static bool g_loB = false, g_loA = false;
+struct LoPool : public ThreadPool {
+   LoPool() : ThreadPool(1) {}
+   virtual status_t StartInternalThread(Thread & t)
+   {
+      { std::unique_lock<std::mutex> g(g_loMu); g_loB = true; g_loCv.notify_all(); vh::note("lockorder: submitter is inside DispatchPendingMessagesUnsafe (holds _poolLock), waiting for the flushing thread to hold the global lock"); while (!g_loA) g_loCv.wait(g); }
+      vh::note("lockorder: main is inside GlobalFlushAllCachedObjects() (global muscle lock) on its way to ThreadPool::Shutdown(); submitter (under _poolLock) starts the pool's first thread");
+      return ThreadPool::StartInternalThread(t);
+   }
+};
+struct LoProbe : public AbstractObjectRecycler {
+   virtual void RecycleObject(void *) {}
+   virtual uint32 FlushCachedObjects() { std::lock_guard<std::mutex> g(g_loMu); g_loA = true; g_loCv.notify_all(); return 0; }
+   virtual void Print(const OutputPrinter &) const {}
+};
+static void LoSubmitter(DocClient * c) { (void)c->Send(0); }
+static void LockOrder()
+{
+   CaseCtx dummy; g_case = &dummy;
+   vh::begin_case(0);
+   LoPool * pool = new LoPool; DocClient c(pool);
+   LoProbe * probe = new LoProbe;     // registered after the pool = in front of it in the recycler list = flushed before it
+   std::thread sub(LoSubmitter, &c);
+   { std::unique_lock<std::mutex> g(g_loMu); while (!g_loB) g_loCv.wait(g); }
+   AbstractObjectRecycler::GlobalFlushAllCachedObjects();
+   vh::note("lockorder: flush returned, joining the submitter");
+   sub.join();
+   delete probe; delete pool;      // the pool is shut down; the Message may or may not have been handled
+   vh::stat("lockorder_witness_completed"); vh::distinct(1); vh::distinct(2);
    g_case = NULL;
 }
 
@@ -487,6 +647,9 @@ int main(int argc, char ** argv)
    hookrt::set_role(R_MAIN);
    vh::Ctx & c = vh::ctx();
    const std::string mode = vh::opt("mode", "stress");
+   if (mode == "lockorder") { LockOrder(); return vh::finish(); }
+   // (no warm-up pool: since the repair of F53 nothing a pool's first thread start does may take the global muscle lock under _poolLock; TSan's
+   //  lock-order detector watches for a recurrence in every leg)
    if (mode == "regress") { Regress(); return vh::finish(); }
    for (long k = c.from; k < c.from + c.cases; k++) {
       vh::begin_case(k);
